@@ -257,6 +257,8 @@ class Program:
                     if st.value is not None:
                         if isinstance(st.value, ast.Constant):
                             defaults[st.target.id] = st.value.value
+                        elif isinstance(st.value, ast.Name) and st.value.id in ci.module.globals_assigned:
+                            defaults[st.target.id] = ("__glob__", self.resolve_name(ci.module, st.value.id))     # a module-level name (a sentinel object)
                         else:
                             ok = False      # field(default_factory=...) and the like
             frozen = any(isinstance(d, ast.Call) and any(k.arg == "frozen" and isinstance(k.value, ast.Constant) and k.value.value is True for k in d.keywords) for d in ci.decorators)
